@@ -88,6 +88,93 @@ func (p *Prog) verifyFunction(fn *ssa.Function, con *Contract) (res *FnResult) {
 	if con != nil {
 		res.Obls = append(res.Obls, p.noReadsObligations(fn, con, res.Fn)...)
 		res.Obls = append(res.Obls, p.onlyWriterObligations(fn, con, res.Fn, e)...)
+		// onlycallers: the function is called (or mentioned as a value) only by the listed functions
+		for _, oc := range con.OnlyCallers {
+			props := oc.Props
+			if len(props) == 0 {
+				props = con.Props
+			}
+			allowed := map[string]bool{}
+			for _, a := range oc.Fields {
+				allowed[a] = true
+			}
+			var bad []string
+			var keys []string
+			for k := range p.funcs {
+				keys = append(keys, k)
+			}
+			sort.Strings(keys)
+			for _, k := range keys {
+				g := p.funcs[k]
+				if !p.inRepo(g) || g.Blocks == nil || g == fn {
+					continue
+				}
+				mentions := false
+				for _, b := range g.Blocks {
+					for _, ins := range b.Instrs {
+						var ops [16]*ssa.Value
+						for _, op := range ins.Operands(ops[:0]) {
+							if op != nil && *op != nil && *op == ssa.Value(fn) {
+								mentions = true
+							}
+						}
+					}
+				}
+				if !mentions {
+					continue
+				}
+				top := g
+				for top.Parent() != nil {
+					top = top.Parent()
+				}
+				d := p.fnDisplay(top)
+				short := d[strings.Index(d, ".")+1:]
+				if !allowed[d] && !allowed[short] {
+					bad = append(bad, p.fnDisplay(g))
+				}
+			}
+			o := &Obligation{Name: res.Fn + "#onlycallers", Kind: "onlycallers", Fn: res.Fn, Props: props, Solver: "structural", Result: "unsat",
+				Src: "called only by " + strings.Join(oc.Fields, ", ") + " (" + oc.Label + ")"}
+			if len(bad) > 0 {
+				o.Result = "sat"
+				o.Src = "also called by " + strings.Join(bad, ", ") + ", which the contract does not list (" + oc.Label + "): a new caller must be put under the same discipline"
+			}
+			res.Obls = append(res.Obls, o)
+		}
+		// nomethod: the named methods do not exist (e.g. no custom JSON marshalling on value types)
+		for _, nm := range con.NoMethods {
+			props := nm.Props
+			if len(props) == 0 {
+				props = con.Props
+			}
+			var found []string
+			for _, f := range nm.Fields {
+				i := strings.LastIndex(f, ".")
+				if i <= 0 {
+					continue
+				}
+				ty := p.lookupQualifiedType(f[:i])
+				if ty == nil {
+					found = append(found, f+" (no such type)")
+					continue
+				}
+				for _, t2 := range []types.Type{ty, types.NewPointer(ty)} {
+					ms := types.NewMethodSet(t2)
+					for j := 0; j < ms.Len(); j++ {
+						if ms.At(j).Obj().Name() == f[i+1:] {
+							found = append(found, f)
+						}
+					}
+				}
+			}
+			o := &Obligation{Name: res.Fn + "#nomethod:" + nm.Label, Kind: "nomethod", Fn: res.Fn, Props: props, Solver: "structural", Result: "unsat",
+				Src: "none of " + strings.Join(nm.Fields, ", ") + " exists (" + nm.Label + ")"}
+			if len(found) > 0 {
+				o.Result = "sat"
+				o.Src = "method(s) " + strings.Join(found, ", ") + " exist (" + nm.Label + ")"
+			}
+			res.Obls = append(res.Obls, o)
+		}
 		for _, ft := range con.FieldTypes {
 			props := ft.Props
 			if len(props) == 0 {
